@@ -64,6 +64,7 @@ type c20Source struct {
 	license   bool // "LICENSE"
 	sub       bool // a sub-directory "sub" holding "lib.so"
 	subNamed  bool // a sub-directory "notation-sub" (well-named, but not a regular file)
+	link      int  // 1: a symbolic link "link.so" to a regular file outside the source, 2: a dangling link "link.so", 3: a link "notation-lnk" to the candidate
 }
 
 func (s *c20Source) build() {
@@ -95,6 +96,15 @@ func (s *c20Source) build() {
 	}
 	if s.subNamed {
 		must(os.MkdirAll(s.dir+"/notation-sub", 0o755))
+	}
+	switch s.link {
+	case 1:
+		must(os.WriteFile(s.dir+"-outside.so", []byte("O"), 0o644))
+		must(os.Symlink(s.dir+"-outside.so", s.dir+"/link.so"))
+	case 2:
+		must(os.Symlink(s.dir+"/missing.so", s.dir+"/link.so"))
+	case 3:
+		must(os.Symlink(s.dir+"/"+s.candidate, s.dir+"/notation-lnk"))
 	}
 }
 
@@ -214,6 +224,10 @@ func VsymC20() {
 				src.after = vr.Choice("fileAfter", 2) == 1
 			} else {
 				src.before, src.after = true, true
+			}
+			if full && shape == 0 {
+				// symbolic links in the source directory are not regular files: never candidates, never installed
+				src.link = vr.Choice("symlinkInSource", 4)
 			}
 			if full && vr.Tier() > 0 {
 				src.license = vr.Choice("license", 2) == 1
